@@ -15,6 +15,7 @@ import (
 	"github.com/enbility/ship-go/api"
 	"github.com/enbility/ship-go/cert"
 	"github.com/enbility/ship-go/logging"
+	"github.com/enbility/ship-go/model"
 	"github.com/enbility/ship-go/ship"
 	"github.com/enbility/ship-go/ws"
 	"github.com/gorilla/websocket"
@@ -481,6 +482,12 @@ func (h *Hub) registerConnection(connection api.ShipConnectionInterface) {
 	defer h.muxCon.Unlock()
 
 	h.connections[connection.RemoteSKI()] = connection
+
+	// the connection is running since it was created: if it has failed already, its end may have been
+	// reported before this registration, and nothing would remove the entry any more
+	if state, _ := connection.ShipHandshakeState(); state == model.SmeStateError {
+		delete(h.connections, connection.RemoteSKI())
+	}
 }
 
 // return the connection for a specific SKI
